@@ -154,7 +154,20 @@ func init() {
 				if len(hist) == 0 {
 					c.Count("history:none")
 				}
-				emitInspect(c, o, f, validate, how, hist, validate && nb >= 2)
+				// section-reader reuse: the Reader under test is opened on a DataReader / IndexReader
+				// value of an earlier Reader that has been consumed as a stream (nesting depth 1-3)
+				var reuse []uint64
+				if r.Chance(30) {
+					for n := 1 + r.Intn(3); n > 0; n-- {
+						view := uint64(10)
+						if r.Chance(12) {
+							view = 20
+						}
+						reuse = append(reuse, view+uint64(r.Intn(5)))
+					}
+					c.Count(fmt.Sprintf("reuse:depth%d", len(reuse)))
+				}
+				emitInspectR(c, o, f, validate, how, hist, reuse, validate && nb >= 2)
 				c.Count("input:" + how)
 				if o.zeof {
 					c.Count("opt:zeof")
